@@ -12,7 +12,11 @@ prop_c09_b are evaluated on it (build/m_rotate oracle).
 Outside the model (oracle / direct expectation only) a few deterministic probes: a second sink object on the same
 path (w2), sinks on OTHER log files of the same directory and process (wo: sink objects must share nothing), sparse
 active files near INT_MAX and beyond 2 GiB (size and daily rotation), a plain file with a .gz twin of the same date
-and index (model + oracle), a look-alike with a trailing newline, a record still buffered at midnight (F21)."""
+and index (model + oracle), a look-alike with a trailing newline, a record still buffered at midnight (F21), two sinks with the
+same complete base name and different suffixes / file-count limits (wo ... N2), a refused rename (mkdir: a sub-directory named like
+the next rotated file; C05), a message object older than its send across midnight on an empty log (C09), a daylight-saving zone
+(C09).  A write op is ('w', shown[, type[, raw[, age]]]): `raw` present = the message has a FORMATTED text `shown` (possibly empty
+but set) over the raw text `raw`; absent / None = no formatted text, the raw text is shown (model: WriteMsg / shown_text)."""
 import gzip, json, os, re, shutil, tempfile, time
 from concurrent.futures import ThreadPoolExecutor
 import vlib
@@ -586,7 +590,8 @@ META_NOTE = ('Trusted: Coq 8.16.1 kernel (vm_compute only for the closed sweep o
              'locale, gzip bytes (C08).  Hypotheses of the theorems: the wall clock never goes backwards and stays before year '
              '10000; nobody else creates files that match the sink\'s own rotated-name scheme; (L, N, options) fixed across restarts; '
              'no I/O errors; indices below 2^31.  The QtMsgType of a record is part of the Write operation and provably irrelevant '
-             '(C07_message_type_irrelevant).')
+             '(C07_message_type_irrelevant); so is the raw text of a message that has a formatted text (WriteMsg / shown_text, '
+             'C07_raw_text_of_a_formatted_message_irrelevant).  Harness-only (no model): refused rename, message age, daylight-saving zone, second sink with another N.')
 
 
 def probe_newline_lookalike(chk, impl, model):
@@ -1023,7 +1028,7 @@ def run_check(pid):
                    'modelled not verified: file system, QRegularExpression, QDate, local 8-bit codec = UTF-8, gzip bytes (C08)']
     chk.assumptions = ['the wall clock never goes backwards (Advance dt >= 0) and stays before 9999-12-31; the process time zone is a fixed offset (no DST change during a history)',
                        'no other program creates files matching the sink\'s rotated-name scheme while it runs (pre-existing ones = an earlier life of the same sink)',
-                       '(L, N, options) stay fixed across restarts; messages are dated by the wall clock at the time they are written (synchronous logging; DESIGN F7)',
+                       '(L, N, options) stay fixed across restarts; messages are dated by the wall clock at the time they are written (synchronous logging; DESIGN F7) - a message object older than its send is exercised by a C09 probe with the oracles never-rotates-empty / every .gz valid only',
                        'every record reaches the file, and stamps it, at the time it is written (the sink is flushed / looked at between operations); the other case is the open finding F21, probed deterministically by C09',
                        'no I/O errors (C10), a UTF-8 locale (C, fa_IR, ar_EG exercised), rotation indices below 2^31']
     chk.proof(vlib.proof_leg('Properties_' + pid, ['rotate']))
@@ -1236,6 +1241,13 @@ def replay_check(pid, path):
     mine = [[e for e in l if not any(e[0] == x.active or x.parse(e[0]) for x in onm)] if l is not None else None for l in ls]
     bits, infos, _, _ = verdicts(case, model, mine)
     print('configuration  L=%d N=%d options=%d granularity=%dms zone=UTC%+dmin locale=%s file=%s t0=%d' % (case['L'], case['N'], case['opts'], case['gran'], case.get('tz', 0), case.get('locale') or 'C.UTF-8', nm.active.decode(), case['t0']))
+    if case.get('tzname') or any(o[0] in ('mkdir', 'wo', 'w2', 'sparse') or (o[0] == 'w' and len(o) > 4 and o[4]) for o in case['ops']):
+        print('note: a harness-only probe (%s): the model line below does not know these dimensions and is shown for orientation only; '
+              'the verdict of the probe is stated on the implementation' % ', '.join(
+                  (['process zone TZ=' + case['tzname']] if case.get('tzname') else []) +
+                  sorted({'sub-directory in the way' if o[0] == 'mkdir' else 'second sink' if o[0] in ('wo', 'w2') else 'sparse file' if o[0] == 'sparse'
+                          else 'message older than its send' for o in case['ops']
+                          if o[0] in ('mkdir', 'wo', 'w2', 'sparse') or (o[0] == 'w' and len(o) > 4 and o[4])})))
     for i, o in enumerate([None] + list(case['ops'])):
         print('--- after operation %d: %s' % (i, show_op(o)))
         print('  implementation', show_listing(ls[i]) if i < len(ls) else None)
